@@ -30,7 +30,7 @@ func (c *c14Collector) violation(scenario string, input any, msg string) {
 	if len(c.out.Violations) >= 20 {
 		return
 	}
-	b, _ := jsonMarshalC14(input)
+	b, _ := c14JSON(input)
 	c.out.Violations = append(c.out.Violations, verifmc.Found{Violation: verifmc.Violation{Property: "C14", Msg: msg}, Scenario: scenario, Input: b})
 }
 
